@@ -5,7 +5,7 @@ from lib import vlib
 
 
 def schedules(ctx, binary, consts, tag):
-    g = ctx.tlc("StubAlloc", "Gen_StubAlloc.cfg", workers=1, timeout=900, constants=consts, tag="all interleavings " + tag)
+    g = ctx.tlc("MC_StubAlloc", "Gen_StubAlloc.cfg", workers=1, timeout=900, constants=consts, tag="all interleavings " + tag)
     scheds = ctx.behaviours(g)
     if not scheds:
         raise vlib.Broken("no schedules")
@@ -65,11 +65,47 @@ def free(ctx, binary, g, k):
     ctx.note("Trace_Stub: %d granted regions (mmap + holder) and %d exhaustion errors accepted; overlapping copy rejected" % (ngranted, nerr))
 
 
+def inductive(ctx):
+    """Unbounded in the number of requests and the reserve size: IndInv of spec/apalache/StubAllocInd.tla is inductive
+    (Apalache), holds initially and implies the four invariants; the pre-F11 grant rule must break the induction."""
+    files = ["StubAlloc.tla", "apalache/StubAllocInd.tla"]
+    common = ["--cinit=CInit"]
+    for args, what in ((["--init=Init", "--inv=IndInv", "--length=0"], "base case Init => IndInv"),
+                       (["--init=IndInit", "--inv=IndInv", "--length=1"], "induction step IndInv /\\ Next => IndInv'"),
+                       (["--init=IndInit", "--inv=Safe", "--length=0"], "IndInv => Disjoint /\\ InReserve /\\ Sized /\\ NoOverrun")):
+        rc, out = ctx.apalache(files, "StubAllocInd.tla", common + args, tag=what)
+        if rc != 0:
+            raise vlib.Broken("Apalache refutes '%s' on the specification itself (the spec or its inductive invariant is wrong): %s" % (what, out[-1500:]))
+    # self-test: the grant rule before the fix of F11 ([pl, pl+len) instead of [n-len, n)) is not inductive
+    import os
+    d = os.path.join(ctx.scratch, "apa_mut")
+    os.makedirs(os.path.join(d, "apalache"), exist_ok=True)
+    src = open(os.path.join(vlib.VERIF, "spec", "StubAlloc.tla")).read()
+    mut = src.replace("lo |-> n - len, hi |-> n, len", "lo |-> pl[p], hi |-> pl[p] + len, len")
+    if mut == src:
+        raise vlib.Broken("self-test mutation of StubAlloc.tla did not apply")
+    spec = os.path.join(vlib.VERIF, "spec")
+    bak = None
+    try:
+        # ctx.apalache copies from spec/: use a private copy instead
+        open(os.path.join(d, "StubAlloc.tla"), "w").write(mut)
+        import shutil
+        shutil.copy(os.path.join(spec, "apalache", "StubAllocInd.tla"), d)
+        rc, out = vlib.sh(["apalache-mc", "check", "--cinit=CInit", "--init=IndInit", "--inv=IndInv", "--length=1", "StubAllocInd.tla"], cwd=d, timeout=900)
+    except Exception as e:
+        raise vlib.Broken("apalache self-test failed to run: %s" % e)
+    if rc != 12:
+        raise vlib.Broken("Apalache accepts the pre-F11 grant rule as inductive (rc=%d): the inductive check is vacuous" % rc)
+    ctx.note("Apalache: IndInv is inductive for any number of requests and any reserve size (<= 3 processes, sizes 1..8); "
+             "it implies Disjoint, InReserve, Sized, NoOverrun; the pre-F11 grant rule breaks the induction")
+
+
 def run(ctx):
     q = ctx.quick()
-    r = ctx.tlc("StubAlloc", "MC_StubAlloc.cfg", workers=16, timeout=900, constants=None if q else {"P": "{1, 2, 3}"},
+    r = ctx.tlc("MC_StubAlloc", "MC_StubAlloc.cfg", workers=16, timeout=900, constants=None if q else {"P": "{1, 2, 3}"},
                 tag="exhaustive 2 procs x 2 requests x sizes 1..3, reserve 6, mmap may succeed or fail")
     ctx.note("StubAlloc: %d distinct states; Disjoint InReserve Sized NoOverrun hold" % r["distinct"])
+    inductive(ctx)
     binary = ctx.build_test("internal/bytecode/stub", ["drv", "stubdrv"], name="stubdrv")
     schedules(ctx, binary, {"P": "{1, 2}", "Sizes": "{1, 3}", "K": 2, "R": 6}, "2 procs x 2 requests, sizes {1,3}, reserve 6")
     if not q:
